@@ -378,18 +378,18 @@ static void smat_free (smat * m) { free (m->cnt); free (m->beg); free (m->ind); 
 
 static void c_add_cols (void)
 {
-	int k = nslot ('p'), num = ni (), j, rc, anynull = 0;
+	int k = nslot ('p'), num = ni (), j, rc, allnull = 1;	/* names == NULL only when every entry is NULL; mixed lists are passed as they are */
 	smat m; mpq_t *o = qalloc (num), *l = qalloc (num), *u = qalloc (num);
 	const char **names = malloc ((num + 1) * sizeof (char *));
 	smat_init (&m, num);
 	for (j = 0; j < num; j++)
 	{
 		svec v;
-		nq (o[j]); nq (l[j]); nq (u[j]); names[j] = nname (); if (!names[j]) anynull = 1;
+		nq (o[j]); nq (l[j]); nq (u[j]); names[j] = nname (); if (names[j]) allnull = 0;
 		read_svec (&v); smat_add (&m, j, &v); free_svec (&v);
 	}
 	BEGIN ("add_cols");
-	rc = mpq_QSadd_cols (P[k], num, m.cnt, m.beg, m.ind, m.val, o, l, u, anynull ? 0 : names);
+	rc = mpq_QSadd_cols (P[k], num, m.cnt, m.beg, m.ind, m.val, o, l, u, allnull ? 0 : names);
 	ev_int ("rc", rc);
 	END ();
 	smat_free (&m); qfree (o, num); qfree (l, num); qfree (u, num); free (names);
@@ -426,7 +426,7 @@ static void c_add_ranged_row (void)
 }
 static void add_rows_common (int ranged)
 {
-	int k = nslot ('p'), num = ni (), j, rc, anynull = 0;
+	int k = nslot ('p'), num = ni (), j, rc, allnull = 1;	/* names == NULL only when every entry is NULL; mixed lists are passed as they are */
 	smat m; mpq_t *r = qalloc (num), *g = qalloc (num);
 	char *sense = malloc (num + 1);
 	const char **names = malloc ((num + 1) * sizeof (char *));
@@ -435,14 +435,14 @@ static void add_rows_common (int ranged)
 	{
 		svec v;
 		nq (r[j]); sense[j] = (char) nchr (); if (ranged) nq (g[j]);
-		names[j] = nname (); if (!names[j]) anynull = 1;
+		names[j] = nname (); if (names[j]) allnull = 0;
 		read_svec (&v); smat_add (&m, j, &v); free_svec (&v);
 	}
 	BEGIN (ranged ? "add_ranged_rows" : "add_rows");
 	if (ranged)
-		rc = mpq_QSadd_ranged_rows (P[k], num, m.cnt, m.beg, m.ind, m.val, r, sense, g, anynull ? 0 : names);
+		rc = mpq_QSadd_ranged_rows (P[k], num, m.cnt, m.beg, m.ind, m.val, r, sense, g, allnull ? 0 : names);
 	else
-		rc = mpq_QSadd_rows (P[k], num, m.cnt, m.beg, m.ind, m.val, r, sense, anynull ? 0 : names);
+		rc = mpq_QSadd_rows (P[k], num, m.cnt, m.beg, m.ind, m.val, r, sense, allnull ? 0 : names);
 	ev_int ("rc", rc);
 	END ();
 	smat_free (&m); qfree (r, num); qfree (g, num); free (sense); free (names);
